@@ -181,7 +181,9 @@ func parseParams(p Value) (params []string, rest string, hasRest bool, ok bool) 
 	return params, "", false, true
 }
 
-func malformed(msg string) *Err { return &Err{Class: EMalformed, Msg: msg, Payload: Opaque("go-error")} }
+func malformed(msg string) *Err {
+	return &Err{Class: EMalformed, Msg: msg, Payload: Opaque("go-error")}
+}
 
 // Eval evaluates form in sc.
 func (in *Interp) Eval(form Value, sc *Scope) (Value, *Err) {
